@@ -5,17 +5,19 @@ CFG = {
     "theorems": [
         "Leptos.Async.Inv.run",
         "Leptos.Async.C10_settles_loading_off",
-        "Leptos.Async.C10_settles_on_latest_partial",
         "Leptos.Async.C10_settles_on_latest",
         "Leptos.Async.C10_settles_on_latest_history",
-        "Leptos.Async.C10_dirty_stolen_witness",
-        "Leptos.Async.C10_settles_on_latest_full_false",
         "Leptos.Async.C10_awaiters_resumed",
         "Leptos.Async.C10_await_never_panics",
         "Leptos.Async.C10_sync_read_is_previous_or_none",
         "Leptos.Async.C10_notify_marks_every_subscriber",
         "Leptos.Async.C10_dependents_notified_each_transition",
         "Leptos.Async.C10_version_check_redundant",
+        "Leptos.Async.C10_dirty_stolen_witness",
+        "Leptos.Async.C10_settles_on_latest_old1_false",
+        "Leptos.Async.C10_stale_initial_witness",
+        "Leptos.Async.C10_settles_on_latest_old2_false",
+        "Leptos.Async.runV_repaired",
         "Leptos.Async.run_src",
         "Leptos.Async.run_lastManual",
     ],
@@ -23,7 +25,8 @@ CFG = {
     "harness_bin": "c10",
     "n": {"quick": 12000, "thorough": 400000},
     "trivial_tags": ["plain", "no-effect", "effect-d", "settled", "fresh-completion", "multi-source", "init-value"],
-    "rule": "one real ArcAsyncDerived/AsyncDerived (sync and unsync constructors, with/without initial value) over 1-2 source signals on the "
+    "rule": "one real ArcAsyncDerived/AsyncDerived (sync and unsync constructors, with/without initial value) over 1-2 source signals, read by the fetcher "
+            "directly or through one memo of all of them, on the "
             "harness-controlled executor, fetcher futures = oneshot receivers resolved by `complete`; optional subscriber Effect reading the derived "
             "(alone, or before/after a memo of the sources); awaiters (`d.await`, `ready()`, `by_ref()`) attached at generated points. Cases: EVERY op "
             "sequence of length <= 3 over {set, refetch, mset, complete, attach, poll 0/1/2} and of length 4 over {set, complete, mset, poll 0/1} for every "
@@ -43,20 +46,22 @@ CFG = {
                  "(one memo over signals)"],
     "assumptions": [
         "single-threaded executor (cross-thread races are C19)",
-        "sources of the derived are plain signals read synchronously when the fetcher is called; a memo appears only as a second source of the subscriber effect",
+        "sources of the derived are plain signals, or one memo of all of them, read synchronously when the fetcher is called; the subscriber effect may read a second memo",
         "manual writes write Some(v) (a manual `None` with loading off makes `.await` panic on unwrap: outside the property)",
         "Suspense/SuspenseContext bookkeeping and AsyncTransition (ready_tx) are not driven: without a SuspenseContext/transition in scope they are no-ops",
         "leptos_server Resource/OnceResource/LocalResource are NOT covered by the correspondence (Resource wraps the same ArcAsyncDerived via "
-        "new_with_manual_dependencies with a memo source; LocalResource adds Executor::tick): only the reactive_graph core they delegate to is",
+        "new_with_manual_dependencies with an untracked fetcher over a memo source; LocalResource adds Executor::tick): only the reactive_graph core "
+        "they delegate to is, including a tracked memo source",
     ],
     "manifest": {
         "category": "proof",
-        "text": "Lean 4 invariant proof over ALL configurations and ALL event lists (source writes, refetches, manual writes, completions, awaiter "
-                "attachments, polls of any woken task in any order): at every settled point loading is off and every awaiter has resumed with a value "
-                "(unconditional); reads change only by a manual write or by consuming a completed fetch; an idle executor means the subscriber saw the "
-                "current value. 'Settles on the LATEST inputs' is REFUTED in general by a kernel-checked witness that replays on the real code (F-C10-1: a "
-                "dependent that also reads a memo and is polled before the derived's task consumes the derived's Dirty state, so it never refetches) and "
-                "proved for every history in which that did not happen, in particular whenever no dependent reads a memo. Tied to reactive_graph by "
+        "text": "Lean 4 invariant proof over ALL configurations (sources read directly or through a memo, any subscriber effect) and ALL event lists "
+                "(source writes, refetches, manual writes, completions, awaiter attachments, polls of any woken task in any order): at every settled "
+                "point loading is off, the value is the fetcher's result for the LATEST source values (or the last manual write if that came later) and "
+                "every awaiter has resumed with a value; reads change only by a manual write or by consuming a completed fetch; an idle executor means "
+                "the subscriber saw the current value. The statement is about the code after two repairs (F-C10-1 a dependent's check consumed the "
+                "derived's Dirty state; F-C10-2 stale initial future reused when a memo source changed before the first poll); the pre-repair code is "
+                "kept as an executable chain with kernel-checked regression witnesses that replay on the unrepaired code. Tied to reactive_graph by "
                 "differential correspondence (exhaustive small op sequences + random).",
         "design_ref": "DESIGN.md §7 C10",
         "note": "hand-written model validated by correspondence; fetches are serialised by the task loop, so the `latest_version == this_version` test is "
